@@ -48,6 +48,7 @@ func execNetworkSimplex(g *graph.DGraph, params graph.Params) {
 		e = negCutValueTreeEdge(g.Edges)
 		i++
 	}
+	verifPivots(len(g.Nodes), i, maxitr)
 	normalize(g)
 	switch params.NetworkSimplexBalance {
 	case 1:
